@@ -299,6 +299,118 @@ pub fn threaded_case(rep: &mut Report, opts: &Opts, case: u64, prop: &str) {
     }
 }
 
+// ------------------------------------------------------------------ extreme inputs
+
+mod extreme {
+    use std::panic::{catch_unwind, AssertUnwindSafe};
+    use std::sync::{Arc, Mutex};
+    use std::time::Duration;
+
+    use nexosim::model::{Context, Model};
+    use nexosim::ports::EventSource;
+    use nexosim::simulation::{Mailbox, SimInit};
+    use nexosim::time::MonotonicTime;
+
+    use crate::bench::to_ns;
+
+    pub struct Rx {
+        pub log: Arc<Mutex<Vec<(u64, u64)>>>,
+    }
+    impl Rx {
+        pub fn on(&mut self, uid: u64, cx: &mut Context<Self>) {
+            // Times near the end of the representable range do not fit in u64 ns.
+            let t = cx.time().duration_since(MonotonicTime::EPOCH);
+            let ns = if t.as_secs() < 1 << 32 { to_ns(cx.time()) } else { u64::MAX - 1 };
+            self.log.lock().unwrap().push((uid, ns));
+        }
+        /// Schedules a periodic event on itself through the model context.
+        pub fn arm(&mut self, a: (u64, Duration, Duration), cx: &mut Context<Self>) {
+            let r = cx.schedule_periodic_event(a.1, a.2, Rx::on, a.0);
+            self.log.lock().unwrap().push((u64::MAX, r.is_ok() as u64));
+        }
+    }
+    impl Model for Rx {}
+
+    /// Periodic requests whose period is so large that `deadline + k * period`
+    /// leaves the representable range after k = 1 or 2 occurrences, through
+    /// every periodic entry point. Oracle (C08): an accepted request fires at
+    /// its deadline, every stepping call returns (a panic is not a return), a
+    /// later request is still served. Occurrences that are not representable
+    /// do not exist; whether such a period is accepted or rejected is not
+    /// judged.
+    pub fn case(api: u64, overflow_at: u64, threads: usize) -> Result<u64, (String, String)> {
+        crate::rec::reset(&Default::default());
+        let log = Arc::new(Mutex::new(Vec::new()));
+        let mb: Mailbox<Rx> = Mailbox::new();
+        let addr = mb.address();
+        let (mut simu, sched) = SimInit::with_num_threads(threads).add_model(Rx { log: log.clone() }, mb, "rx").init(MonotonicTime::EPOCH).map_err(|e| ("C08/extreme-init-failed".to_string(), format!("{:?}", e)))?;
+        let d = Duration::from_secs(1);
+        // k = 1: the first re-insertion overflows; k = 2: the second one does.
+        let period = if overflow_at == 1 { Duration::MAX } else { Duration::from_secs(i64::MAX as u64 / 2 + 1000) };
+        let names = ["Scheduler::schedule_periodic_event", "Scheduler::schedule_keyed_periodic_event", "Scheduler::schedule(EventSource::periodic_event)", "Scheduler::schedule(EventSource::keyed_periodic_event)", "Context::schedule_periodic_event"];
+        let what = format!("{} with deadline 1 s and period {:?} ({} executor thread(s))", names[api as usize], period, threads);
+        let mut src: EventSource<u64> = EventSource::new();
+        src.connect(Rx::on, &addr);
+        let mut keys = Vec::new();
+        let accepted = catch_unwind(AssertUnwindSafe(|| match api {
+            0 => sched.schedule_periodic_event(d, period, Rx::on, 7, &addr).is_ok(),
+            1 => sched.schedule_keyed_periodic_event(d, period, Rx::on, 7, &addr).map(|k| keys.push(k)).is_ok(),
+            2 => sched.schedule(d, src.periodic_event(period, 7)).is_ok(),
+            3 => {
+                let (a, k) = src.keyed_periodic_event(period, 7);
+                keys.push(k);
+                sched.schedule(d, a).is_ok()
+            }
+            _ => {
+                let r = simu.process_event(Rx::arm, (7, d, period), &addr);
+                r.is_ok() && log.lock().unwrap().iter().any(|e| *e == (u64::MAX, 1))
+            }
+        }));
+        let accepted = match accepted {
+            Ok(a) => a,
+            Err(_) => return Err(("C08/scheduling-call-panicked".into(), format!("{}: the scheduling call panicked", what))),
+        };
+        if !accepted {
+            return Ok(0);
+        }
+        let mut steps = 0u64;
+        for k in 0..3u64 {
+            let r = catch_unwind(AssertUnwindSafe(|| simu.step()));
+            match r {
+                Err(_) => return Err(("C08/stepping-call-panicked-after-accepted-request".into(), format!("{}: the request was accepted, then step() number {} panicked instead of returning (fired so far: {:?})", what, k + 1, log.lock().unwrap().iter().filter(|e| e.0 == 7).collect::<Vec<_>>()))),
+                Ok(Err(e)) => return Err(("C08/stepping-failed-after-accepted-request".into(), format!("{}: step() number {} returned {:?}", what, k + 1, e))),
+                Ok(Ok(())) => steps += 1,
+            }
+        }
+        let fired: Vec<u64> = log.lock().unwrap().iter().filter(|e| e.0 == 7).map(|e| e.1).collect();
+        if fired.first() != Some(&1_000_000_000) {
+            return Err(("C08/accepted-request-never-fired".into(), format!("{}: accepted, but the occurrences processed are {:?} (the first one is due at 1 s)", what, fired)));
+        }
+        if fired.len() as u64 > overflow_at {
+            return Err(("C08/accepted-request-fired-more-than-once".into(), format!("{}: {} occurrences processed ({:?}) although only {} are representable", what, fired.len(), fired, overflow_at)));
+        }
+        // The simulation and its scheduler must still be usable.
+        let later = catch_unwind(AssertUnwindSafe(|| sched.schedule_event(Duration::from_secs(5), Rx::on, 9, &addr).is_ok()));
+        match later {
+            Ok(true) => {}
+            Ok(false) if overflow_at == 2 => {} // time is already close to the end of the representable range
+            Ok(false) => return Err(("C08/later-request-rejected".into(), format!("{}: a later valid request was rejected", what))),
+            Err(_) => return Err(("C08/scheduling-call-panicked".into(), format!("{}: a later scheduling call panicked (poisoned scheduler queue?)", what))),
+        }
+        if overflow_at == 1 {
+            match catch_unwind(AssertUnwindSafe(|| simu.step())) {
+                Ok(Ok(())) => {}
+                other => return Err(("C08/stepping-call-panicked-after-accepted-request".into(), format!("{}: the step serving a later request did not return Ok: {:?}", what, other.map_err(|_| "panicked")))),
+            }
+            if !log.lock().unwrap().iter().any(|e| e.0 == 9) {
+                return Err(("C08/accepted-request-never-fired".into(), format!("{}: the later request never fired", what)));
+            }
+        }
+        drop(keys);
+        Ok(steps)
+    }
+}
+
 pub fn run(opts: &Opts) -> Report {
     let mut rep = Report::new("C08");
     let want = |p: &str| opts.part.as_deref().map_or(true, |x| x == p);
@@ -311,6 +423,28 @@ pub fn run(opts: &Opts) -> Report {
             to.max_inv = 30;
         }
         sim::run_family(&mut rep, opts, &FamilyRun { prop: "C08", part: "grid", cases: opts.n(if cfg!(miri) { 4 } else { 400 }, 10000), gen: &|s| gen::gen_timer(s, &to), set: ExecSet::StOnly, pools: &[], nontrivial: &|s, _| s.sched_rejected > 0 && s.sched_ok > 0, predict: true, also: &[] });
+    }
+    if want("grid") && !cfg!(miri) {
+        // Extreme periods (the occurrence after next is not representable).
+        let mut case = 0u64;
+        for api in 0..5u64 {
+            for overflow_at in [1u64, 2] {
+                for threads in [1usize, 2] {
+                    case += 1;
+                    if !opts.mine(case) {
+                        continue;
+                    }
+                    rep.evaluations += 1;
+                    match extreme::case(api, overflow_at, threads) {
+                        Ok(n) => {
+                            rep.count("extreme_period_requests_judged", 1);
+                            rep.count("extreme_period_steps", n);
+                        }
+                        Err((sig, detail)) => rep.violation(sig, format!("[grid/extreme] {}", detail), format!("{} --exec 0", opts.replay_args("grid", 1_000_000 + case))),
+                    }
+                }
+            }
+        }
     }
     if want("threads") {
         let n = if cfg!(miri) { 2 } else { opts.n(480, 4800) };
